@@ -57,7 +57,7 @@ def _pair_mps(rng, L, d, layout):
 def mps_sum(ctx, idx, rng):
     L = int(rng.choice([1, 1, 2, 3, 4, 5, 6]))
     d = int(rng.choice([1, 2, 3]))
-    layout = str(rng.choice(['zero', 'unsorted', 'sorted', 'pairs']))
+    layout = str(rng.choice(['zero', 'unsorted', 'sorted', 'pairs', 'huge']))
     qd, a, b, lab = _pair_mps(rng, L, d, layout)
     va, vb = refs.dense_state(a.A), refs.dense_state(b.A)
     sub = bool(idx % 2)
@@ -97,7 +97,7 @@ def mpo_arith(ctx, idx, rng):
     d = int(rng.choice([1, 2, 3]))
     while d ** (2 * L) > 4096:
         L -= 1
-    layout = str(rng.choice(['zero', 'unsorted', 'sorted', 'pairs']))
+    layout = str(rng.choice(['zero', 'unsorted', 'sorted', 'pairs', 'huge']))
     qd = _qd(rng, d, layout)
     diffs = np.unique(np.subtract.outer(qd, qd))
     b0 = int(rng.choice(diffs))
@@ -170,7 +170,7 @@ def apply_case(ctx, idx, rng):
     d = int(rng.choice([1, 2, 3]))
     while d ** L > 1024:
         L -= 1
-    layout = str(rng.choice(['zero', 'unsorted', 'pairs']))
+    layout = str(rng.choice(['zero', 'unsorted', 'pairs', 'huge']))
     qd, a, b, lab = _pair_mps(rng, L, d, layout)
     src = str(rng.choice(['random', 'random-open-charge', 'model']))
     if src == 'model' and d in (2, 3) and L >= 2:
@@ -204,7 +204,7 @@ def identity_case(ctx, idx, rng):
     d = int(rng.integers(1, 4))
     while d ** (2 * L) > 4096 * 4:
         L -= 1
-    qd = _qd(rng, d, str(rng.choice(['zero', 'unsorted', 'pairs'])))
+    qd = _qd(rng, d, str(rng.choice(['zero', 'unsorted', 'pairs', 'huge'])))
     scale = float(rng.choice([1, -2.5, 0.5]))
     dt = (complex, float)[idx % 2]
     ctx.case(('identity', f'L{L}', f'd{d}', f'scale{scale}', dt.__name__), sample={'qd': qd, 'L': L, 'scale': scale})
@@ -308,7 +308,7 @@ def large_case(ctx, idx, rng):
         qd = H.qd
     else:
         L = int(rng.integers(8, 25)); d = int(rng.choice([2, 3, 5]))
-        qd = _qd(rng, d, str(rng.choice(['zero', 'unsorted', 'pairs'])))
+        qd = _qd(rng, d, str(rng.choice(['zero', 'unsorted', 'pairs', 'huge'])))
     a = large.big_state(rng, qd, L, int(rng.choice([4, 8])))
     b = gen.rand_mps(rng, qd, L, 'random', Dmax=int(rng.choice([3, 6])), q0=int(a.qD[0][0]), qL=int(a.qD[-1][0]))
     probes = large.probes_near(rng, [np.asarray(x, dtype=complex) for x in a.A], k=2) + [[np.asarray(x, dtype=complex) for x in b.A]]
